@@ -1134,7 +1134,9 @@ class Facts:
                 t = f.term(b)
                 if t["k"] == "drop":
                     for (adt, dk) in self.drop_impls:
-                        if adt in norm(t["pty"]):
+                        # the dropped type mentions the ADT (as itself or as a type argument): match whole paths only
+                        # (`checkout::Checkout` is not `checkout::CheckoutSource`)
+                        if re.search(r"(^|[<,( &])" + re.escape(adt) + r"($|[<>,) ])", norm(t["pty"])):
                             cg[k].add(dk)
             for (_, _, _, ck) in f.closures_created():
                 if ck in self.fns:
